@@ -34,7 +34,9 @@ inductive Method where
   deriving Repr, DecidableEq, Inhabited
 
 section model
-variable {α : Type} [Add α] [Sub α] [Mul α] [Div α] [Zero α] [One α] [NatCast α]
+variable {α : Type} [Add α] [Sub α] [Mul α] [Div α] [Neg α] [Zero α] [One α] [NatCast α]
+variable [LT α] [DecidableLT α] [LE α] [DecidableLE α] [Max α] [Min α]
+
 
 /-- `Σ_{j<p} f j` -/
 def rsum (p : Nat) (f : Nat → α) : α := ((List.range p).map f).sum
@@ -63,9 +65,9 @@ def gram (rows : List (Row α)) : Mat α :=
 def gram2 (rows : List (Row α)) : Mat α :=
   fun j k => (rows.map (fun r => (r j * r k) * (r j * r k))).sum
 
-/-- `_covariance_full` (input already demeaned) -/
+/-- `_covariance_full` (input already demeaned): the generated `einsum(...) / dof` -/
 def covFullC (rows : List (Row α)) (dof : α) : Mat α :=
-  fun j k => gram rows j k / dof
+  fun j k => Rsa.Gen.C14.fullNorm (gram rows j k) dof
 
 /-- `_variance`: `np.diag(einsum('ij,ij->j') / dof)` -/
 def varianceC (rows : List (Row α)) (dof : α) : Mat α :=
@@ -75,20 +77,22 @@ def varianceC (rows : List (Row α)) (dof : α) : Mat α :=
 def delta (j k : Nat) : α := if j = k then 1 else 0
 
 section ordered
-variable [LT α] [DecidableLT α] [Min α] [Max α]
 
 /-! #### Ledoit–Wolf (`_covariance_eye`) -/
 
 /-- `s = s_sum / matrix.shape[0]` -/
-def eyeS (rows : List (Row α)) : Mat α := fun j k => gram rows j k / (rows.length : α)
+def eyeS (rows : List (Row α)) : Mat α :=
+  fun j k => Rsa.Gen.C14.lwS (gram rows j k) (rows.length : α)
 
 /-- `b2` before the `min`: `np.sum(s2_sum / n - s * s) / n` -/
 def eyeB2raw (rows : List (Row α)) (p : Nat) : α :=
-  rsum2 p (fun j k => gram2 rows j k / (rows.length : α) - eyeS rows j k * eyeS rows j k)
-    / (rows.length : α)
+  Rsa.Gen.C14.lwB2
+    (rsum2 p (fun j k => gram2 rows j k / (rows.length : α) - eyeS rows j k * eyeS rows j k))
+    (rows.length : α)
 
 /-- `m = np.sum(np.diag(s)) / s.shape[0]` -/
-def eyeM (rows : List (Row α)) (p : Nat) : α := rsum p (fun j => eyeS rows j j) / (p : α)
+def eyeM (rows : List (Row α)) (p : Nat) : α :=
+  Rsa.Gen.C14.lwM (rsum p (fun j => eyeS rows j j)) (p : α)
 
 /-- `d2 = np.sum((s - m * np.eye(p)) ** 2)` -/
 def eyeD2 (rows : List (Row α)) (p : Nat) : α :=
@@ -96,7 +100,8 @@ def eyeD2 (rows : List (Row α)) (p : Nat) : α :=
                       * (eyeS rows j k - eyeM rows p * delta j k))
 
 /-- `b2 = min(d2, b2)` -/
-def eyeB2 (rows : List (Row α)) (p : Nat) : α := min (eyeD2 rows p) (eyeB2raw rows p)
+def eyeB2 (rows : List (Row α)) (p : Nat) : α :=
+  Rsa.Gen.C14.lwB2min (eyeD2 rows p) (eyeB2raw rows p)
 
 /-- the shrinkage intensity `b2 / d2`; `0` when `d2` is not positive (repaired: then
     `s` equals its target and is returned as it is) -/
@@ -106,7 +111,8 @@ def eyeLambda (rows : List (Row α)) (p : Nat) : α :=
 /-- one entry of `_covariance_eye` given the scalars:
     `(b2/d2 * m * eye + (d2-b2)/d2 * s) * n / dof` -/
 def covEyeEntry (s d2 b2 m n dof : α) (j k : Nat) : α :=
-  (if 0 < d2 then b2 / d2 * m * delta j k + (d2 - b2) / d2 * s else s) * n / dof
+  Rsa.Gen.C14.lwRescale
+    (if 0 < d2 then Rsa.Gen.C14.lwCombine b2 d2 m (delta j k) s else s) n dof
 
 /-- `_covariance_eye` as coded -/
 def covEyeC (rows : List (Row α)) (dof : α) (p : Nat) : Mat α :=
@@ -118,21 +124,24 @@ def covEyeC (rows : List (Row α)) (dof : α) (p : Nat) : Mat α :=
 variable [HasSqrt α]
 
 /-- `s = s_sum / dof` is `covFullC`; `var = np.diag(s)`; `std = np.sqrt(var)` -/
-def sdVar (rows : List (Row α)) (dof : α) (j : Nat) : α := covFullC rows dof j j
+def sdS (rows : List (Row α)) (dof : α) : Mat α :=
+  fun j k => Rsa.Gen.C14.ssS (gram rows j k) dof
+def sdVar (rows : List (Row α)) (dof : α) (j : Nat) : α := sdS rows dof j j
 def sdStd (rows : List (Row α)) (dof : α) (j : Nat) : α := HasSqrt.sqrt (sdVar rows dof j)
 
 /-- `s_mean = s_sum / std[None,:] / std[:,None] / (n - 1)` -/
 def sdSMean (rows : List (Row α)) (dof : α) : Mat α :=
-  fun j k => gram rows j k / sdStd rows dof k / sdStd rows dof j / ((rows.length : α) - 1)
+  fun j k => Rsa.Gen.C14.ssSMean (gram rows j k) (sdStd rows dof k) (sdStd rows dof j)
+    (rows.length : α)
 
 /-- `s2_mean = s2_sum / var[None,:] / var[:,None] / (n - 1)` -/
 def sdS2Mean (rows : List (Row α)) (dof : α) : Mat α :=
-  fun j k => gram2 rows j k / sdVar rows dof k / sdVar rows dof j / ((rows.length : α) - 1)
+  fun j k => Rsa.Gen.C14.ssS2Mean (gram2 rows j k) (sdVar rows dof k) (sdVar rows dof j)
+    (rows.length : α)
 
 /-- `var_hat = n / dof ** 2 * (s2_mean - s_mean ** 2)` -/
 def sdVarHat (rows : List (Row α)) (dof : α) : Mat α :=
-  fun j k => (rows.length : α) / (dof * dof)
-    * (sdS2Mean rows dof j k - sdSMean rows dof j k * sdSMean rows dof j k)
+  fun j k => Rsa.Gen.C14.ssVarHat (rows.length : α) dof (sdS2Mean rows dof j k) (sdSMean rows dof j k)
 
 def sdNum (rows : List (Row α)) (dof : α) (p : Nat) : α := rsumOff p (sdVarHat rows dof)
 def sdDen (rows : List (Row α)) (dof : α) (p : Nat) : α :=
@@ -141,15 +150,17 @@ def sdDen (rows : List (Row α)) (dof : α) (p : Nat) : α :=
 /-- `lamb = max(min(num / den, 1), 0)`; `0` when `den` is not positive (repaired: then
     `s` is already diagonal) -/
 def sdLambda (rows : List (Row α)) (dof : α) (p : Nat) : α :=
-  if 0 < sdDen rows dof p then max (min (sdNum rows dof p / sdDen rows dof p) 1) 0 else 0
+  if 0 < sdDen rows dof p then
+    Rsa.Gen.C14.ssClip (Rsa.Gen.C14.ssLambRaw (sdNum rows dof p) (sdDen rows dof p))
+  else 0
 
 /-- one entry of `_covariance_diag` given the intensity: `s * (eye + (1 - lamb) * mask)` -/
 def covSDiagEntry (s lam : α) (j k : Nat) : α :=
-  s * (delta j k + (1 - lam) * (if j = k then 0 else 1))
+  Rsa.Gen.C14.ssShrink s (Rsa.Gen.C14.ssScaling (delta j k) lam (if j = k then 0 else 1))
 
 /-- `_covariance_diag` as coded -/
 def covSDiagC (rows : List (Row α)) (dof : α) (p : Nat) : Mat α :=
-  fun j k => covSDiagEntry (covFullC rows dof j k) (sdLambda rows dof p) j k
+  fun j k => covSDiagEntry (sdS rows dof j k) (sdLambda rows dof p) j k
 
 /-! #### `_estimate_covariance` and the three entry points -/
 
@@ -204,8 +215,8 @@ def balancedR (gs : List (List (Row α))) : Option Nat :=
   | [] => none
   | g :: rest => if rest.all (fun h => h.length == g.length) then some g.length else none
 
-variable [Add α] [Sub α] [Mul α] [Div α] [Zero α] [One α] [NatCast α]
-variable [LT α] [DecidableLT α] [Min α] [Max α] [HasSqrt α]
+variable [Add α] [Sub α] [Mul α] [Div α] [Neg α] [Zero α] [One α] [NatCast α]
+variable [LT α] [DecidableLT α] [LE α] [DecidableLE α] [Max α] [Min α] [HasSqrt α]
 
 /-- 3-D branch of `_check_demean`: mean over repetitions within each condition, then
     `transpose(0,2,1).reshape(C*R, P)` = the blocks one after the other -/
@@ -292,8 +303,8 @@ def freezeRows (p : Nat) (rows : List (Row α)) : List (Row α) :=
 def matList (p : Nat) (m : Mat α) : List (List α) :=
   (List.range p).map (fun j => (List.range p).map (fun k => m j k))
 
-variable [Add α] [Sub α] [Mul α] [Div α] [Zero α] [One α] [NatCast α]
-variable [LT α] [DecidableLT α] [Min α] [Max α] [HasSqrt α]
+variable [Add α] [Sub α] [Mul α] [Div α] [Neg α] [Zero α] [One α] [NatCast α]
+variable [LT α] [DecidableLT α] [LE α] [DecidableLE α] [Max α] [Min α] [HasSqrt α]
 
 def covEyeL (rows : List (Row α)) (dof : α) (p : Nat) : List (List α) :=
   let d2 := eyeD2 rows p
@@ -303,7 +314,7 @@ def covEyeL (rows : List (Row α)) (dof : α) (p : Nat) : List (List α) :=
 
 def covSDiagL (rows : List (Row α)) (dof : α) (p : Nat) : List (List α) :=
   let lam := sdLambda rows dof p
-  matList p (fun j k => covSDiagEntry (covFullC rows dof j k) lam j k)
+  matList p (fun j k => covSDiagEntry (sdS rows dof j k) lam j k)
 
 def estimateCL (m : Method) (rows : List (Row α)) (dof : α) (p : Nat) : List (List α) :=
   match m with
